@@ -8,6 +8,7 @@ import time
 import z3
 
 CVC5 = '/usr/bin/cvc5'
+QUICK_Z3_MS = 3000
 
 
 def timeouts():
@@ -30,24 +31,34 @@ def discharge(pc, goal, want_model=True):
         if r == z3.unsat:
             return {'result': 'unsat', 'backend': 'z3(path infeasible)', 'time_s': time.time() - t0, 'model': None}
         return {'result': 'unknown', 'backend': 'z3', 'time_s': time.time() - t0, 'model': None}
-    s = z3.Solver()
-    s.set('timeout', timeouts()[0])
-    s.set('random_seed', 0)
-    s.add(*pc)
-    s.add(z3.Not(goal))
-    r = s.check()
+    # stage 1: z3 with a short budget (decides almost everything in milliseconds);
+    # stage 2: cvc5 on the SMT-LIB dump (much better on substr/concat string VCs);
+    # stage 3: z3 again with the full budget
+    def z3_try(ms):
+        s = z3.Solver()
+        s.set('timeout', ms)
+        s.set('random_seed', 0)
+        s.add(*pc)
+        s.add(z3.Not(goal))
+        return s, s.check()
+    s, r = z3_try(QUICK_Z3_MS)
+    if r == z3.unknown:
+        r2 = run_cvc5(s.to_smt2(), timeouts()[1])
+        dt = time.time() - t0
+        if r2 == 'unsat':
+            return {'result': 'unsat', 'backend': 'cvc5', 'time_s': dt, 'model': None}
+        if r2 == 'sat':
+            # a model is wanted for the replay: ask z3 once more with the full budget
+            s, r = z3_try(timeouts()[0])
+            if r == z3.sat:
+                return {'result': 'sat', 'backend': 'cvc5+z3', 'time_s': time.time() - t0, 'model': s.model()}
+            return {'result': 'sat', 'backend': 'cvc5', 'time_s': time.time() - t0, 'model': None}
+        s, r = z3_try(timeouts()[0])
     dt = time.time() - t0
     if r == z3.unsat:
         return {'result': 'unsat', 'backend': 'z3', 'time_s': dt, 'model': None}
     if r == z3.sat:
         return {'result': 'sat', 'backend': 'z3', 'time_s': dt, 'model': s.model()}
-    # unknown: try cvc5
-    r2 = run_cvc5(s.to_smt2(), timeouts()[1])
-    dt = time.time() - t0
-    if r2 == 'unsat':
-        return {'result': 'unsat', 'backend': 'cvc5', 'time_s': dt, 'model': None}
-    if r2 == 'sat':
-        return {'result': 'sat', 'backend': 'cvc5', 'time_s': dt, 'model': None}
     return {'result': 'unknown', 'backend': 'z3+cvc5', 'time_s': dt, 'model': None,
             'reason': s.reason_unknown()}
 
